@@ -134,6 +134,9 @@ func VerifRealloc(arg string) {
 	vKnown("F-C33-fragment-core-moves", originBound && (originMilli*sb/1000)%sb != 0)
 	vKnown("F-C33-numa-node-changes", numa)
 
+	if numa {
+		vNoSample() // NUMA plan order follows Go's random map order natively
+	}
 	resp, err := p.CalculateRealloc(ctx, "node", originRaw, req)
 	if vNativeRun && numa && mode == 0 && err == nil {
 		// natively the NUMA plan order follows Go's random map iteration order:
